@@ -89,6 +89,8 @@ func rulesIndex(c *Ctx) {
 				i++
 				if d[ent] {
 					c.ok("I1", cons, call.Pos(), "the parsed entry is taken from Values()")
+				} else if c.entriesFromValuesAtCallers(f, ent) {
+					c.ok("I1", cons, call.Pos(), "the parsed entry is taken from a list that every caller of this helper draws from Values()")
 				} else {
 					c.bad("I1", cons, call.Pos(), "an operation is parsed from an entry that does not come from the log's total order (Values)")
 				}
@@ -114,6 +116,57 @@ func rulesIndex(c *Ctx) {
 
 	c.ruleI3()
 	c.ruleI5()
+}
+
+// entriesFromValuesAtCallers: ent derives from a parameter of f (a fold step split from the
+// index update) and every static caller — a method of the same index — fills that parameter
+// from the log's Values().
+func (c *Ctx) entriesFromValuesAtCallers(f *ssa.Function, ent ssa.Value) bool {
+	for idx, p := range f.Params {
+		if !derived([]ssa.Value{p}, flowOpts{throughCalls: true})[ent] {
+			continue
+		}
+		// the incremental argument of UpdateIndex itself is not such a parameter
+		if f.Name() == "UpdateIndex" {
+			return false
+		}
+		sites, okAll := 0, true
+		for _, g := range c.RepoFns {
+			if c.isTestFile(g.Pos()) {
+				continue
+			}
+			eachCall(g, func(cs ssa.CallInstruction) {
+				if cs.Common().StaticCallee() != f || idx >= len(cs.Common().Args) {
+					return
+				}
+				sites++
+				var seeds []ssa.Value
+				eachCall(g, func(vc ssa.CallInstruction) {
+					if c.isLogCall(vc, "Values") && vc.Value() != nil {
+						seeds = append(seeds, vc.Value())
+					}
+					// or a reader helper that returns Values()
+					if h := vc.Common().StaticCallee(); h != nil && h.Blocks != nil && h.Pkg == g.Pkg && vc.Value() != nil {
+						if c.reachesStatic(h, func(x ssa.CallInstruction) bool { return c.isLogCall(x, "Values") }, 0) && !c.reachesStatic(h, func(x ssa.CallInstruction) bool {
+							for m := range logOrderSensitive {
+								if c.isLogCall(x, m) {
+									return true
+								}
+							}
+							return false
+						}, 0) {
+							seeds = append(seeds, vc.Value())
+						}
+					}
+				})
+				if !derived(seeds, flowOpts{throughCalls: true})[cs.Common().Args[idx]] {
+					okAll = false
+				}
+			})
+		}
+		return sites > 0 && okAll
+	}
+	return false
 }
 
 // parseCallEntry: the call decodes an operation from a log entry (its first result is the
